@@ -92,10 +92,10 @@ func sprint(sb *strings.Builder, rv reflect.Value, depth int) {
 		// as fmt does, a value that knows how to print itself does
 		switch v := rv.Interface().(type) {
 		case error:
-			sb.WriteString(v.Error())
+			sb.WriteString(callPrinter("Error", v.Error))
 			return
 		case fmt.Stringer:
-			sb.WriteString(v.String())
+			sb.WriteString(callPrinter("String", v.String))
 			return
 		}
 	}
@@ -142,4 +142,16 @@ func sprint(sb *strings.Builder, rv reflect.Value, depth int) {
 		// fmt prints the value a reflect.Value holds
 		fmt.Fprint(sb, rv)
 	}
+}
+
+// callPrinter calls a value's Error or String method. As in fmt, a panic in the
+// method (a value-receiver method reached through a nil embedded pointer, say)
+// is printed, not propagated.
+func callPrinter(name string, method func() string) (s string) {
+	defer func() {
+		if r := recover(); r != nil {
+			s = fmt.Sprintf("%%!v(PANIC=%s method: %v)", name, r)
+		}
+	}()
+	return method()
 }
